@@ -151,9 +151,7 @@ fn check_instant(ctx: &mut Ctx, tz: Tz, secs: i64, digits: u32, tag: &str) {
     let j = catch(|| serde_json::to_string(&lib_val).map_err(|e| e.to_string()).and_then(|t| dt_of(serde_json::from_str::<Value>(&t).map_err(|e| format!("{e} (doc {t})")))));
     expect(ctx, "hayson-roundtrip", "Hayson encode->decode", j, &want, false, &doc);
     // E: the C API: an instant (UTC date + time) and a zone name -> that instant in that zone; getters give it back
-    if nanos % 1_000_000 == 0 {
-        capi_instant(ctx, tz, secs, nanos, &want, &short);
-    }
+    capi_instant(ctx, tz, secs, nanos, &want, &short);
     // D: zone-less constructors: Err or exactly the instant (zone/offset of the result are not prescribed)
     let mut any = want.clone();
     any.tz = String::new();
@@ -172,7 +170,13 @@ fn capi_instant(ctx: &mut Ctx, tz: Tz, secs: i64, nanos: u32, want: &MDateTime, 
     let sod = secs.rem_euclid(86400) as u32;
     let r = catch(|| unsafe {
         let date = haystack_value_make_date(y as i32, mo, d).map(Box::into_raw);
-        let time = haystack_value_make_time_millis(sod / 3600, (sod / 60) % 60, sod % 60, nanos / 1_000_000).map(Box::into_raw);
+        // millisecond times through the constructor, finer ones through a decoded Time value
+        let time = if nanos % 1_000_000 == 0 {
+            haystack_value_make_time_millis(sod / 3600, (sod / 60) % 60, sod % 60, nanos / 1_000_000).map(Box::into_raw)
+        } else {
+            let t = CString::new(format!("{:02}:{:02}:{:02}.{:09}", sod / 3600, (sod / 60) % 60, sod % 60, nanos)).unwrap();
+            libhaystack::c_api::zinc::haystack_value_from_zinc_string(t.as_ptr()).map(Box::into_raw)
+        };
         let (Some(date), Some(time)) = (date, time) else { return Err("make_date/make_time failed".to_string()) };
         let zname = CString::new(if tz == chrono_tz::UTC { "UTC" } else { short }).unwrap();
         let dt = if tz == chrono_tz::UTC && secs % 2 == 0 { haystack_value_make_utc_datetime(date, time) } else { haystack_value_make_tz_datetime(date, time, zname.as_ptr()) };
